@@ -239,7 +239,7 @@ class RoundTrips(Bounded):
     name = "file-round-trips"
     bound = ("every droplet class (spherical, diffuse, 2D / 3D / axisymmetric perturbed) x dimension x 1-4 amplitudes x width {None, 0, value}: "
              "Emulsion (0, 1, 2, 5 members), EmulsionTimeCourse (0-5 frames incl. empty members, 7 time lists: ints, floats, negative, "
-             "non-monotonic, repeated, -0.0, huge/tiny), DropletTrack, DropletTrackList (incl. empty tracks), mixed-class collections (must "
+             "non-monotonic, repeated, -0.0, huge/tiny), DropletTrack, DropletTrackList (incl. empty tracks), vanished droplets (radius exactly 0), emulsions whose declared dtype is stale, mixed-class collections (must "
              "raise or round-trip); written with the real h5py and read back: classes, dtypes and parameter BYTES, times and order must be "
              "identical; quick: every class once per collection kind, thorough: all sizes x time lists; plus one pass through the in-memory "
              "h5py that implements only the assumed contract")
@@ -323,6 +323,31 @@ class RoundTrips(Bounded):
                     for t_ in tl:
                         tr.append(mk(rng), time=t_)
                     check("DropletTrack", tr, f"{cname} d{dim} appended times{tl}")
+            # collections with an unusual history: vanished droplets (radius exactly 0, set after insertion or inserted as they are), an emulsion
+            # whose DECLARED dtype is stale (created empty for one class, filled with another; a member replaced by item assignment)
+            for ci, (cname, dim, mk) in enumerate(mat):
+                if tier == "quick" and ci % 3:
+                    continue
+                a, b, c_ = mk(rng), mk(rng), mk(rng)
+                b.radius = 0.0
+                em = Emulsion([a, b, c_])
+                check("Emulsion", em, f"{cname} d{dim} vanished member")
+                etc = EmulsionTimeCourse([Emulsion([a, b]), Emulsion([b]), Emulsion([c_])], times=[0, 1, 2])
+                check("EmulsionTimeCourse", etc, f"{cname} d{dim} vanished members")
+                etc2 = EmulsionTimeCourse([Emulsion([a, c_])], times=[0.5])
+                etc2.emulsions[0][1].radius = 0.0
+                check("EmulsionTimeCourse", etc2, f"{cname} d{dim} radius set to 0 after insertion")
+                tr = DropletTrack(droplets=[a, b, c_], times=[0, 1, 2])
+                check("DropletTrack", tr, f"{cname} d{dim} vanished member")
+                for (c2, d2, m2) in mat:
+                    if d2 == dim and c2 != cname:
+                        stale = Emulsion.empty(m2(rng))
+                        stale.extend([mk(rng), mk(rng)])
+                        check("Emulsion", stale, f"{cname} d{dim} in an emulsion declared for {c2}")
+                        repl = Emulsion([m2(rng)])
+                        repl[0] = mk(rng)
+                        check("Emulsion", repl, f"{cname} d{dim} assigned into an emulsion of {c2}")
+                        break
             # collections mixing droplet classes: writing must raise or round-trip, never silently change a class
             for (c1, d1, m1), (c2, d2, m2) in itertools.combinations(mat, 2):
                 if d1 != d2 or c1 == c2:
@@ -1025,7 +1050,9 @@ class _WriteDataset(Contract):
         def member(run2, idx):
             c = const_of(idx) if is_num(idx) else None
             return sym_member(run2, n + int(c) if c is not None and c < 0 else idx)
-        me = Sym(self.what, truth=(n > 0), length=n, attrs={"data": payload}, getitem=member)
+        # `self.dtype` is the dtype the emulsion was DECLARED with; it need not describe the members (Emulsion.empty(a spherical droplet) filled with
+        # diffuse ones, item assignment) - only `self.data` does
+        me = Sym(self.what, truth=(n > 0), length=n, attrs={"data": payload, "dtype": SOpaque("declared dtype (possibly stale)"), "dim": SOpaque("dim")}, getitem=member)
         self.n = n
         f = WFile()
         run.ghost["io"] = dict(file=f, opened=[], member_writes=[], appends=[])
@@ -1036,9 +1063,11 @@ class _WriteDataset(Contract):
         run, me, f, payload = self.ctx
         c = f.created
         out = [("exactly one dataset is created, under the given key, and returned", len(c) == 1 and c[0]["key"] == "some_key" and isinstance(ret, Sym) and
-                ret.name == "dataset[0]" and not c[0]["extra"])]
+                ret.name == "dataset[0]")]
         if len(c) != 1:
             return out
+        out.append((f"the data array is stored as it is: no conversion options (got {sorted(c[0]['extra'])}) - a dtype taken from anywhere but the array itself may drop or reinterpret fields",
+                    not c[0]["extra"]))
         tag = c[0]["attrs"].get("droplet_class")
         out.append(("the only attribute written is the class tag", set(c[0]["attrs"]) == {"droplet_class"}))
         if case["empty"]:
